@@ -10,7 +10,10 @@ N = {"quick": 6000, "thorough": 120000}
 RULE = (
     "random histories of 1-80 operations (get_label/get_class/contains on classes and on "
     "integers incl. unknown, negative and huge labels; is_empty with and without label; "
-    "set_empty; add) over a pool of 12 word classes, with and without byte compression; "
+    "set_empty; add) over a pool of 12 word classes, with and without byte compression; EVERY class argument is a "
+    "fresh object, equal but not identical to every earlier presentation of that class (alternately built from "
+    "permuted-but-equal constructor input), so that 'equal classes share a label' is exercised, also through the "
+    "compression fallback; "
     "a separate malformed stream uses mismatched labels and non-class keys. "
     "Non-trivial: at least 3 distinct classes labelled, a repeated label lookup, and an "
     "emptiness cache hit; distinct = distinct (compression, op list)."
@@ -145,8 +148,24 @@ def impl(case):
     db = ClassDB(cls)
     outs, trace = [], []
 
+    nfresh = [0]
+
+    def fresh(v):
+        """an EQUAL but NON-IDENTICAL class object for every presentation of pool class v to the database (the searcher
+        hands the database a new object from every strategy application), built alternately from the constructor input
+        as listed and from a permuted-but-equal one (reversed patterns / alphabet, which the constructor sorts): a
+        database keyed by identity instead of equality - directly or through its compression fallback - gives the
+        second presentation a new label.  pool[v] itself is only used by the harness (pool.index)."""
+        p, pats, alph, jp = words.POOL_SPEC[v]
+        nfresh[0] += 1
+        if nfresh[0] % 2:
+            pats, alph = list(reversed(list(pats))), list(reversed(list(alph)))
+        obj = cls(p, list(pats), list(alph), jp)
+        assert obj is not pool[v] and obj == pool[v]
+        return obj
+
     def key(kind, v):
-        return pool[v] if kind == 0 else v
+        return fresh(v) if kind == 0 else v
 
     for o in expand(case):
         try:
@@ -165,15 +184,15 @@ def impl(case):
                 r = [2, int(key(o[1], o[2]) in db)]
             elif o[0] == 3:
                 if len(o) == 3:
-                    lab = db.get_label(pool[o[1]]) if o[2] == -7 else o[2]
-                    r = [2, int(db.is_empty(pool[o[1]], lab))]
+                    lab = db.get_label(fresh(o[1])) if o[2] == -7 else o[2]
+                    r = [2, int(db.is_empty(fresh(o[1]), lab))]
                 else:
-                    r = [2, int(db.is_empty(pool[o[1]]))]
+                    r = [2, int(db.is_empty(fresh(o[1])))]
             elif o[0] == 4:
                 db.set_empty(key(o[1], o[2]), bool(o[3]))
                 r = [3]
             else:
-                db.add(pool[o[1]])
+                db.add(fresh(o[1]))
                 r = [3]
         except (KeyError, IndexError, TypeError, ValueError) as ex:
             r = [4, ERR[type(ex).__name__]]
